@@ -22,6 +22,8 @@ PLAN = {
         {"template": "drive.verus.rs", "tier": "quick", "rlimit": 40, "min_functions": 5},
         # enqueue side: every enqueue attempt is followed by a wake-up; the metadata table keeps the latest description
         {"template": "state.verus.rs", "tier": "quick", "rlimit": 40, "min_functions": 3},
+        # per-client event arm (lifted): a client is removed / counted out only when drive_connection reported the connection closed
+        {"template": "arm.verus.rs", "tier": "quick", "rlimit": 20, "min_functions": 1},
     ],
     "witnesses": [
         # the connect clause on the real exporter over loopback (metadata changes between two connects)
